@@ -100,6 +100,14 @@ CHECKS = {
         'an oracle checks every traversal entry point, treespec_dict, round trip and register_pytree_node.get(dict) against the current mode.',
    note=TB + 'The mode switch is process-wide and documented as not thread-safe; concurrency is out of scope here (C17).',
    design='§7 C13'),
+ 'C14': dict(
+   technique='Coq proof (heap of mutable list objects: invariant over all user programs; completeness of the GC traversal, shortcuts refuted on reachable treespecs) + extracted-model correspondence (owned references vs __getstate__/gc.get_referents; alias programs) + identity-level before/after snapshots, history and weakref oracles on the rebuilt implementation',
+   text='Theorems: after flatten, for every heap, source key list and EVERY user program (any sequence of in-place mutations of the source and of every list entries() ever returned, interleaved with further entries() calls) the treespec says what it said when created, and that is the source\'s keys at flatten time (sorted, and in insertion order); keeping the caller\'s list or handing out the treespec\'s own list is refuted; '
+        'tp_traverse reports exactly the references every node owns for every treespec, and the two plausible shortcuts (skip childless nodes; choose fields by node kind) are refuted on treespecs that flatten produces. '
+        'The run compares per node the owned-reference pattern with __getstate__ and requires every payload to be among gc.get_referents(treespec); compares alias programs on real dicts; and checks on the implementation: operands identical (identity-level snapshot) before/after ~190 API operations; 15 kinds of handed-out containers are fresh and their mutation changes neither treespec nor tree; '
+        'random histories of (mutate source containers, mutate handed-out lists, unregister, re-register with other functions, delete tree / leaves, gc.collect, pickle) with the treespec (state, repr, paths, entries, accessors, children, hash, unflatten) re-observed after each event; leaves die once tree and leaf list are dropped, for 15 treespec-producing operations; reference cycles through 13 kinds of payload x 3 construction routes are collected.',
+   note=TB + 'PARTIAL: the heap model covers the key lists of one dict node (the mechanism that aliasing defects F2/F12 were about); reference counting and the cycle collector are CPython\'s and are observed, not modelled. __getstate__ deliberately exposes the internal lists (pickle protocol) and is excluded from the freshness claim. An exhausted PyTreeIter keeps its root (not a treespec; outside the property).',
+   design='§7 C14'),
  'C15': dict(
    technique='Coq proof (fault-injected flatten: dichotomy by induction on the depth budget; no-internal-error; guard-set restoration; map fault) + extracted-model correspondence at sampled fault positions + exhaustive per-callback fault enumeration over the public API on the rebuilt implementation',
    text='Theorems: for every configuration, tree, depth budget and k, a fault at the k-th callback invocation of flatten (is_leaf calls and custom flatten calls in engine order) yields exactly the injected exception or, when fewer than k callbacks are made, exactly the fault-free result; the instrumented traversal without a fault is the flatten of the other properties; '
